@@ -148,7 +148,7 @@ theorem request_enabled (c : Cfg) (st : State) (x : Xfer) (hcur : st.s.cur = som
     (hheld : st.s.held = 0) (hopen : st.s.open = true) (hpool : x.want.2 ≤ st.s.pool) :
     (step c st .request).isSome = true := by
   simp only [step, hcur]
-  rw [if_pos ⟨hheld, hopen, hpool⟩]
+  rw [if_pos ⟨hheld, by simp [Sender.mayRequest, hopen], hpool⟩]
   rfl
 
 theorem giveBack_enabled (c : Cfg) (st : State) (rest : List Nat) (hcur : st.s.cur = some (.portReqs rest))
